@@ -1,6 +1,7 @@
 package scen
 
 import (
+	"bytes"
 	"encoding/hex"
 	"fmt"
 	"strings"
@@ -25,6 +26,7 @@ import (
 
 func init() {
 	Register(&Scenario{
+		Pools: true,
 		Name:  "receipts",
 		Props: []string{"C18"},
 		Plan:  simple(60000, 10000000),
@@ -133,6 +135,11 @@ func runReceipts(r *core.Run) {
 		m      *rcptMsg
 	}
 	var outs []out
+	type pendingBody struct {
+		pdu        *cmpp20.PduDeliver
+		live, snap []byte
+	}
+	var pendingBodies []pendingBody
 	usedID := map[string]bool{}
 	for i := 0; i < n; i++ {
 		m := &rcptMsg{idx: i, seq: uint32(1000 + i), want: map[string]string{}}
@@ -258,10 +265,19 @@ func runReceipts(r *core.Run) {
 				r.Fail("C18", "status-report", "cmpp.SubPduDeliveryContent", "length", "status report body of %d octets (60 expected)", len(bb))
 			}
 			outs = append(outs, out{&cmpp20.PduSubmitResp{Header: cmpp.NewHeader(0, cmpp.CommandSubmitResp, m.seq), MsgID: id}, true, m})
-			outs = append(outs, out{&cmpp20.PduDeliver{Header: cmpp.NewHeader(0, cmpp.CommandDeliver, m.seq+5000), MsgID: c.Uint64(), RegisteredDeliver: 1,
-				MsgLength: uint8(len(bb)), MsgContent: string(bb)}, false, m})
+			// the SMSC keeps the encoded body until the deliver PDU is assembled (after the other reports were encoded)
+			dl := &cmpp20.PduDeliver{Header: cmpp.NewHeader(0, cmpp.CommandDeliver, m.seq+5000), MsgID: c.Uint64(), RegisteredDeliver: 1, MsgLength: uint8(len(bb))}
+			pendingBodies = append(pendingBodies, pendingBody{dl, bb, append([]byte(nil), bb...)})
+			outs = append(outs, out{dl, false, m})
 		}
 		msgs = append(msgs, m)
+	}
+	for i, pb := range pendingBodies {
+		if !bytes.Equal(pb.live, pb.snap) {
+			r.Fail("C18", "status-report", "cmpp.SubPduDeliveryContent", "body-changed-later", "the status-report body encoded for message %d changed while later reports were encoded", i)
+			return
+		}
+		pb.pdu.MsgContent = string(pb.live)
 	}
 	// ---- the network chooses the order of responses and receipts
 	if c.Prob(2, 3) {
